@@ -59,10 +59,12 @@ Inductive edit :=
 | EditNodes (new : table row)
 | EditNodal (k : nat) (new : table row)
 | EditXyz (rows : list row)        (* fem_data.nodes.data = xyz : C08's SetData on the node table *)
-| EditConn (rows : list conn).     (* fem_data.elements.data = conn on a single-type mesh *)
+| EditConn (rows : list conn)      (* fem_data.elements.data = conn on a single-type mesh *)
+| EditUseless.                     (* fem_data.remove_useless_nodes(): the in-place modification *)
 
-Definition apply_edit (m : mesh row) (e : edit) : mesh row :=
+Definition apply_edit (c : cfg) (m : mesh row) (e : edit) : mesh row :=
   match e with
+  | EditUseless => match remove_useless_nodes c m with Some x => x | None => m end
   | EditNodes new => {| nodes := combine_first new (nodes m); elems := elems m; nodal := nodal m;
                         elemental := elemental m |}
   | EditNodal k new =>
@@ -95,9 +97,9 @@ Record mobs := { ob_mesh : mesh row; ob_ids : list Z; ob_types : list nat; ob_da
    the result must be that of the operation on the mesh as it is then *)
 Definition check_h (c : cfg) (m0 : mesh row) (pre : list edit) (removed_first : bool) (mid : list edit)
            (o : cop) (ob : option mobs) : list nat :=
-  let m1 := fold_left apply_edit pre m0 in
+  let m1 := fold_left (apply_edit c) pre m0 in
   let m2 := if removed_first then match remove_useless_nodes c m1 with Some x => x | None => m1 end else m1 in
-  let m := fold_left apply_edit mid m2 in
+  let m := fold_left (apply_edit c) mid m2 in
   if negb (wf_mesh m) then [99%nat] else
   match apply_op c m o, ob with
   | None, None => []
